@@ -1,7 +1,7 @@
 """Repository-wide contradiction / copy-paste rules (Engler-style), armed because their expected count on the reviewed tree
 is zero; a tiny positive control is analysed on every run (selftest/fixtures are not needed: the control is synthesised
 in memory from the same node shapes)."""
-from astu import C, ctxt, gt_pair, eq_const, strip, walk, txt, short, functions_by
+from astu import C, ctxt, gt_pair, eq_const, reach, reach_txt, ctext, strip, walk, txt, short, functions_by
 from vlib.core import ob
 
 
